@@ -521,7 +521,7 @@ NAME_FRAGS = [".shoot", "shoot", ".", "go", ".go", "a", "x_", "_", "o", "g", "te
 
 def l1_cases(run):
     rng = run.rng
-    n = 4000 if run.thorough() else 700
+    n = 4000 if run.thorough() else 500
     heads = []
     for _ in range(n):
         cmd = rng.choice(fsgen.CMDS)
@@ -643,7 +643,7 @@ def case_plan(run, fixed=False):
         fails = ["missing_type", "missing_file", "bad_flag", "missing_dir"]
         for fail in (fails if run.thorough() else run.rng.sample(fails, 2)):
             plan.append((ci, run.rng.choice(["star", "types"]), run.rng.choice(["pkg", "parent"]), fail, ()))
-    extra = 400 if run.thorough() else 12
+    extra = 400 if run.thorough() else 6
     for _ in range(extra):
         plan.append((run.rng.randrange(4), None, None, None, ()))
     return plan
@@ -727,7 +727,7 @@ def main(run):
         # many runs finish before the signal arrives (the write window is a few hundred microseconds):
         # the thorough tier repeats until 200 runs were really killed
         want = 200 if run.thorough() else 0
-        batch = 40 if run.thorough() else 8
+        batch = 40 if run.thorough() else 6
         kidx = 0
         while True:
             kseeds = [run.rng.getrandbits(48) for _ in range(batch)]
